@@ -72,7 +72,10 @@ func propC19(c *Ctx, r *Report) {
 		calls := t.CallsTo("CheckHardForks")
 		bad := "CheckHardForks not executable"
 		if len(calls) > 0 {
-			bad = mustPass(t.Root, calls[0].Instr)
+			bad = "CheckHardForks is not called from NewPegnetd or a stage called once from it"
+			if site := c.liftSite(calls[0].Instr, np); site != nil {
+				bad = mustPass(t.Root, site)
+			}
 		}
 		r.check(bad == "", "C19-R2/startup-gate", "CheckHardForks on every successful start-up path", c.pos(np.Pos()), "", bad)
 	}
